@@ -157,4 +157,179 @@ func TestComposition(t *testing.T) {
 	})
 }
 
+// Inheritance is a set operation: the order in which allOf lists its parents changes neither
+// Check's verdict nor any validation verdict; and when the additionalProperties rules that meet in
+// one object (own and inherited) are all the same, that rule decides the keys no example names.
+const chkOrder = "allOf-order"
+
+type OrderCase struct {
+	Types   []lib.Named `json:"types"`
+	Child   []string    `json:"child_variants"` // the same child with its allOf list in different orders
+	Docs    []string    `json:"docs"`
+	SameAP  string      `json:"the_one_additionalProperties_rule,omitempty"` // set when all rules that meet are equal ("" none at all)
+	AllSame bool        `json:"all_rules_equal"`
+}
+
+func init() {
+	run.RegisterReplay(chkOrder, func(t run.TB, raw json.RawMessage) {
+		var c OrderCase
+		if err := json.Unmarshal(raw, &c); err != nil {
+			t.Fatalf("bad case: %v", err)
+		}
+		checkOrder(t, c)
+	})
+}
+
+func checkOrder(t run.TB, c OrderCase) (accepted bool) {
+	type verdicts struct {
+		check lib.Res
+		docs  []bool
+	}
+	var all []verdicts
+	for _, child := range c.Child {
+		sp := lib.Spec{Schema: child, Types: c.Types}
+		s, add := lib.Build(sp)
+		cr := lib.Check(s)
+		if add.Panic != "" || cr.Panic != "" {
+			run.Fail(t, chkOrder, c, "panic: add=%v check=%v", add, cr)
+		}
+		v := verdicts{check: cr}
+		if !add.OK {
+			v.check = add
+		}
+		if v.check.OK {
+			for _, d := range c.Docs {
+				r := lib.Validate(s, []byte(d))
+				if r.Panic != "" {
+					run.Fail(t, chkOrder, c, "Validate panicked on %s: %v", d, r)
+				}
+				v.docs = append(v.docs, r.OK)
+			}
+		}
+		all = append(all, v)
+	}
+	for i := 1; i < len(all); i++ {
+		if all[i].check.OK != all[0].check.OK {
+			run.Fail(t, chkOrder, c, "Check depends on the order of the allOf list: %q -> %v, %q -> %v", c.Child[0], all[0].check, c.Child[i], all[i].check)
+		}
+		for k := range all[i].docs {
+			if all[i].docs[k] != all[0].docs[k] {
+				run.Fail(t, chkOrder, c, "document %s: accepted=%v with %q, accepted=%v with %q", c.Docs[k], all[0].docs[k], c.Child[0], all[i].docs[k], c.Child[i])
+			}
+		}
+	}
+	if c.AllSame {
+		if !all[0].check.OK {
+			run.Fail(t, chkOrder, c, "Check rejects an inheritance in which every additionalProperties rule is the same: %v", all[0].check)
+		}
+		for k, d := range c.Docs {
+			doc, _ := ref.Parse([]byte(d))
+			want := true
+			have := map[string]bool{}
+			for _, m := range doc.Members {
+				have[m.Key] = true
+				switch m.Key {
+				case "a", "b", "c", "own":
+					if m.Val.Kind != ref.KNumber {
+						want = false
+					}
+				default:
+					switch c.SameAP {
+					case "", "false":
+						want = false
+					case `"integer"`:
+						want = want && m.Val.Kind == ref.KNumber
+					case `"string"`:
+						want = want && m.Val.Kind == ref.KString
+					}
+				}
+			}
+			for _, ty := range c.Types {
+				if key := strings.TrimPrefix(ty.Name, "@p"); !have[key] {
+					want = false
+				}
+			}
+			if !have["own"] {
+				want = false
+			}
+			if all[0].docs[k] != want {
+				run.Fail(t, chkOrder, c, "document %s: accepted=%v, the inherited requirements and additionalProperties %s say %v", d, all[0].docs[k], c.SameAP, want)
+			}
+		}
+	}
+	return all[0].check.OK
+}
+
+func TestAllOfOrder(t *testing.T) {
+	run.SkipIfReplaying(t)
+	defer run.Done(t, chkOrder)
+	aps := []string{"", "", "true", "false", `"any"`, `"integer"`, `"string"`}
+	rapid.Check(t, func(t *rapid.T) {
+		keys := []string{"a", "b", "c"}[:rapid.IntRange(2, 3).Draw(t, "nParents")]
+		var c OrderCase
+		var met []string // the additionalProperties rules that meet in the child
+		var names []string
+		for _, k := range keys {
+			ap := rapid.SampledFrom(aps).Draw(t, "ap"+k)
+			text := "{"
+			if ap != "" {
+				text += " // {additionalProperties: " + ap + "}"
+				met = append(met, ap)
+			}
+			text += "\n  \"" + k + "\": 1\n}"
+			c.Types = append(c.Types, lib.Named{Name: "@p" + k, Text: text})
+			names = append(names, "@p"+k)
+		}
+		own := rapid.SampledFrom(append([]string{"", "", ""}, aps...)).Draw(t, "ownAP")
+		if own != "" {
+			met = append(met, own)
+		}
+		for _, perm := range [][]int{{0, 1, 2}, {1, 0, 2}, {2, 1, 0}, {1, 2, 0}} {
+			var list []string
+			for _, i := range perm {
+				if i < len(names) {
+					list = append(list, "\""+names[i]+"\"")
+				}
+			}
+			rules := "allOf: [" + strings.Join(list, ", ") + "]"
+			if own != "" {
+				if rapid.Bool().Draw(t, "ownFirst") {
+					rules = "additionalProperties: " + own + ", " + rules
+				} else {
+					rules += ", additionalProperties: " + own
+				}
+			}
+			c.Child = append(c.Child, "{ // {"+rules+"}\n  \"own\": 1\n}")
+		}
+		c.AllSame = true
+		for _, m := range met {
+			if m != met[0] {
+				c.AllSame = false
+			}
+		}
+		if c.AllSame && len(met) > 0 {
+			c.SameAP = met[0]
+		}
+		full := ""
+		for _, k := range keys {
+			full += "\"" + k + "\":1,"
+		}
+		c.Docs = []string{"{" + full + "\"own\":2}", "{" + full + "\"own\":2,\"z\":3}", "{" + full + "\"own\":2,\"z\":\"s\"}", "{" + full + "\"own\":2,\"z\":null}",
+			"{\"own\":2,\"z\":3}", "{" + full + "\"z\":3}", "{" + full + "\"own\":\"s\"}", "{" + full + "\"own\":2,\"y\":1,\"z\":\"s\"}"}
+		acc := checkOrder(t, c)
+		run.Eval(chkOrder, len(met) >= 2, fmt.Sprint(c.Types), c.Child[0])
+		if acc {
+			run.Label("inheritance-accepted")
+		} else {
+			run.Label("inheritance-rejected-in-every-order")
+		}
+		if c.AllSame {
+			run.Label("all-additionalProperties-rules-equal")
+		} else {
+			run.Label("different-additionalProperties-rules-meet")
+		}
+		run.Sample(chkOrder, c)
+	})
+}
+
 func TestReplay(t *testing.T) { run.TestReplay(t) }
